@@ -104,7 +104,9 @@ def faulty : List Act :=
     .sched .beginRetry, .sched (.getById .none), .sched (.waitWorker true), .sched (.getById .after),
     .sched .beginRetry, .sched (.getById .none), .sched (.waitWorker true), .sched (.getById .none),
     .complete "t" .nil,
-    .sched .beginStep, .sched .lastTimerErr, .sched (.selResult "t"), .sched (.markDone .before),
+    -- the `DispatchErr`s above left the restart request set (D21): this `Step` restarts the timer first
+    .sched .beginStep, .sched .stopTimer, .sched (.startTimer none), .sched .lastTimerErr,
+    .sched (.selResult "t"), .sched (.markDone .before),
     .sched .beginRetry, .sched (.markDone .none) ]
 
 end C20
